@@ -1,11 +1,31 @@
 /- Operation table of the driver. -/
 import HdwModel.Driver.Util
 import HdwModel.Model.Message
+import HdwModel.Model.Path
+import HdwModel.Model.Signature
+import HdwModel.Model.Rlp
+import HdwModel.Model.CliHex
+import HdwModel.Driver.Judge
 
 namespace Hdw.Driver
 open Hdw
 
 def P : Prims := Prim.real
+
+def compsStr (p : Path.Path) : String :=
+  if p.isEmpty then "-" else
+  ",".intercalate (p.map fun c => match c with
+    | .hardened v => s!"h{v}"
+    | .normal v => s!"n{v}")
+
+def sigFields (σ : Sig) : List String := [nat256hex σ.r, nat256hex σ.s, toString σ.yParity]
+
+def sigArg (r s par : String) : Option Sig := do
+  let r ← unhex r
+  let s ← unhex s
+  let p ← par.toNat?
+  if r.length > 32 || s.length > 32 || p > 1 then none
+  else if Sig.validScalars (beVal r) (beVal s) then some ⟨beVal r, beVal s, p == 1⟩ else none
 
 def runOp (parts : List String) : Resp :=
   match parts with
@@ -17,12 +37,107 @@ def runOp (parts : List String) : Resp :=
     match n.toNat?, f.toNat? with
     | some n, some f => .ok [hx (Message.digest P (List.replicate n (UInt8.ofNat f)))]
     | _, _ => .harness "bad arg"
+  | ["path.parse", a] =>
+    match utf8Arg a with
+    | some s => ofRes (Path.parse s) fun p =>
+        [hxStr (Path.print p), compsStr p]
+    | none => .harness "bad arg"
+  | ["path.for_index", i] =>
+    match i.toNat? with
+    | some i => ofRes (Path.forIndex i) fun p => [hxStr (Path.print p)]
+    | none => .harness "bad arg"
+  | ["sig.parse", a] =>
+    match utf8Arg a with
+    | some s => ofRes (Sig.parse s) sigFields
+    | none => .harness "bad arg"
+  | ["sig.print", r, s, par] =>
+    match sigArg r s par with
+    | some σ => .ok [hxStr (Sig.print σ)]
+    | none => .harness "invalid scalars"
+  | ["sig.v", par, chain] =>
+    match par.toNat?, (if chain == "none" then some none else (unhex chain).map (fun b => some (beVal b))) with
+    | some par, some c => ofRes (Sig.v ⟨1, 1, par == 1⟩ c) fun v => [nat256hex v]
+    | _, _ => .harness "bad arg"
+  | ["rlp.len", n, off] =>
+    match n.toNat?, off.toNat? with
+    | some n, some off => ofRes (Rlp.len n off) fun b => [hx b]
+    | _, _ => .harness "bad arg"
+  | ["rlp.bytes", b] =>
+    match unhex b with
+    | some b => ofRes (Rlp.bytes b) fun o => [hx o]
+    | none => .harness "bad arg"
+  | ["rlp.bytes_rep", n, f] =>
+    match n.toNat?, f.toNat? with
+    | some n, some f =>
+      -- header only: the payload is checked for integrity on the implementation side
+      let hdr : Res Bytes := if n = 1 ∧ f < 0x80 then .ok [] else Rlp.len n 0x80
+      ofRes hdr fun h => [hx h, toString n, "true"]
+    | _, _ => .harness "bad arg"
+  | ["rlp.uint", v] =>
+    match unhex v with
+    | some b => ofRes (Rlp.uint (beVal b)) fun o => [hx o]
+    | none => .harness "bad arg"
+  | ["rlp.list", items] =>
+    let parts := if items == "-" then some [] else (items.splitOn ",").mapM unhex
+    match parts with
+    | some is => ofRes (Rlp.list is) fun o => [hx o]
+    | none => .harness "bad arg"
+  | ["cli.hex_encode", d] =>
+    match unhex d with
+    | some b => .ok [hx (Cli.hexEncodeCmd b)]
+    | none => .harness "bad arg"
+  | ["cli.hex_decode", d] =>
+    match unhex d with
+    | some b => ofRes (Cli.hexDecodeCmd b) fun o => [hx o]
+    | none => .harness "bad arg"
   | op :: _ => .harness s!"unknown op {op}"
   | [] => .harness "empty"
 
 def runModelLine (line : String) : String :=
   (runOp (line.splitOn " ")).render
 
-def runJudgeLine (_line : String) : String := "skip"
+open Judge in
+def judgeOp (parts : List String) (resp : String) : Verdict :=
+  match parts with
+  | ["msg.hash", m] => match unhex m with
+    | some b => judgeMsgHash b resp
+    | none => .skip
+  | ["msg.hash_rep", n, f] => match n.toNat?, f.toNat? with
+    | some n, some f => judgeMsgHash (List.replicate n (UInt8.ofNat f)) resp
+    | _, _ => .skip
+  | ["path.parse", a] => match utf8Arg a with
+    | some s => judgePathParse (String.ofList s) resp
+    | none => .skip
+  | ["path.for_index", i] => match i.toNat? with
+    | some i => judgeForIndex i resp
+    | none => .skip
+  | ["sig.print", r, s, p] => match unhex r, unhex s, p.toNat? with
+    | some r, some s, some p => judgeSigPrint (beVal r) (beVal s) p resp
+    | _, _, _ => .skip
+  | ["sig.parse", a] => match utf8Arg a with
+    | some s => judgeSigParse (String.ofList s) resp
+    | none => .skip
+  | ["cli.hex_encode", d] => match unhex d with
+    | some b => judgeHexEncode b resp
+    | none => .skip
+  | ["cli.hex_decode", d] => match unhex d with
+    | some b => judgeHexDecode b resp
+    | none => .skip
+  | ["rlp.bytes", b] => match unhex b with
+    | some b => judgeRlpItem (.str b) (isStr b) resp
+    | none => .skip
+  | ["rlp.uint", v] => match unhex v with
+    | some b =>
+      -- the integer must come back as a string without leading zero whose value is v
+      judgeRlpItem (.str b) (fun it => match it with
+        | .str o => o.head? != some 0 && beVal o == beVal b
+        | _ => false) resp
+    | none => .skip
+  | _ => .skip
+
+def runJudgeLine (line : String) : String :=
+  match line.splitOn "\t" with
+  | [op, resp] => (judgeOp (op.splitOn " ") resp).render
+  | _ => "skip"
 
 end Hdw.Driver
